@@ -205,3 +205,69 @@ Proof.
   destruct (Nat.eqb (length xs) (count_rule xs)) eqn:E2; [|reflexivity].
   apply Nat.eqb_eq in E2. apply count_filter_all in E2. unfold is_xrule in Hr. congruence.
 Qed.
+
+(* ---------- Policy.from_json on parsed properties (C09 decoding clauses) ---------- *)
+Lemma setattr_shape s n v s' : setattr s n v = Ok s' ->
+  exists t, s' = set_attr n_type (AV (VInt t)) (set_attr n v s).
+Proof.
+  unfold setattr. destruct (check_field_type n v) as [[]|]; cbn; [|discriminate].
+  destruct (calculate_type s n v) as [t|]; cbn; [|discriminate]. intros [= <-]. exists t. reflexivity.
+Qed.
+
+Lemma setattr_lookup_other s n v s' m : setattr s n v = Ok s' -> pstr_eqb m n = false -> pstr_eqb m n_type = false ->
+  lookup m s' = lookup m s.
+Proof.
+  intros H Hn Ht. destruct (setattr_shape _ _ _ _ H) as [t ->].
+  rewrite lookup_set_other by exact Ht. apply lookup_set_other. exact Hn.
+Qed.
+
+Lemma setattr_lookup_same s n v s' : setattr s n v = Ok s' -> pstr_eqb n n_type = false -> lookup n s' = Some v.
+Proof.
+  intros H Ht. destruct (setattr_shape _ _ _ _ H) as [t ->].
+  rewrite lookup_set_other by exact Ht. apply lookup_set_same.
+Qed.
+
+Lemma ctor_effect_context a s : ctor a = Ok s ->
+  lookup n_effect s = Some (if aval_truthy (c_effect a) then c_effect a else AV (VStr s_deny)) /\
+  lookup n_context s = Some (if negb (aval_is_none (c_context a)) then c_context a
+                             else if aval_truthy (c_rules a) then c_rules a else ACtx []) /\
+  lookup n_uid s = Some (c_uid a) /\ lookup n_description s = Some (c_description a).
+Proof.
+  unfold ctor. intros H.
+  repeat match type of H with
+         | bind ?m _ = Ok _ =>
+             let s0 := fresh "s" in let E := fresh "E" in
+             destruct m as [s0|?] eqn:E; cbn [bind] in H; [|discriminate]
+         end.
+  (* E: uid, E0: subjects, E1: effect, E2: resources, E3: actions, E4: context, E5: description, H: type *)
+  repeat split.
+  - rewrite (setattr_lookup_other _ _ _ _ n_effect H) by reflexivity.
+    rewrite (setattr_lookup_other _ _ _ _ n_effect E5) by reflexivity.
+    rewrite (setattr_lookup_other _ _ _ _ n_effect E4) by reflexivity.
+    rewrite (setattr_lookup_other _ _ _ _ n_effect E3) by reflexivity.
+    rewrite (setattr_lookup_other _ _ _ _ n_effect E2) by reflexivity.
+    apply (setattr_lookup_same _ _ _ _ E1). reflexivity.
+  - rewrite (setattr_lookup_other _ _ _ _ n_context H) by reflexivity.
+    rewrite (setattr_lookup_other _ _ _ _ n_context E5) by reflexivity.
+    apply (setattr_lookup_same _ _ _ _ E4). reflexivity.
+  - rewrite (setattr_lookup_other _ _ _ _ n_uid H) by reflexivity.
+    rewrite (setattr_lookup_other _ _ _ _ n_uid E5) by reflexivity.
+    rewrite (setattr_lookup_other _ _ _ _ n_uid E4) by reflexivity.
+    rewrite (setattr_lookup_other _ _ _ _ n_uid E3) by reflexivity.
+    rewrite (setattr_lookup_other _ _ _ _ n_uid E2) by reflexivity.
+    rewrite (setattr_lookup_other _ _ _ _ n_uid E1) by reflexivity.
+    rewrite (setattr_lookup_other _ _ _ _ n_uid E0) by reflexivity.
+    apply (setattr_lookup_same _ _ _ _ E). reflexivity.
+  - rewrite (setattr_lookup_other _ _ _ _ n_description H) by reflexivity.
+    apply (setattr_lookup_same _ _ _ _ E5). reflexivity.
+Qed.
+
+Lemma from_props_uid_required props : lookup n_uid props = None -> from_props props = Raise EPolicyCreation.
+Proof. intros H. unfold from_props. rewrite H. reflexivity. Qed.
+
+Lemma from_props_inv props s : from_props props = Ok s -> policy_inv s.
+Proof.
+  unfold from_props. destruct (lookup n_uid props); [|discriminate].
+  match goal with |- (if ?c then _ else _) = _ -> _ => destruct c end; [|discriminate].
+  apply ctor_inv.
+Qed.
